@@ -448,7 +448,19 @@ def check_b2b(rep, fb, rule_prefix="b2b"):
             # *_inout call or the combinator receiving the closure that makes it) is dominated by it;
             # what those calls do is decided by the interpreted rules b2b.reject / b2b.accept
             dom = G.dominators(b)
-            news = [i for i, t, fn in cl if fn["name"] == "new" and "InOutBuf" in fn.get("path", "")]
+            def makes_pair(fn, depth=0):
+                """InOutBuf::new itself, or a private helper of the crate whose own first call is it
+                (the pairing moved into `fn pair_buffers(..) -> Result<InOutBuf, Error>`)."""
+                if fn["name"] == "new" and "InOutBuf" in fn.get("path", ""):
+                    return True
+                hb = cr.by_path.get(fn.get("path")) if depth < 2 else None
+                if hb is None or hb.get("in_trait") or hb.get("impl_trait"):
+                    return False
+                hcl = list(G.calls(hb))
+                hdom = G.dominators(hb)
+                hn = [i for i, t, f2 in hcl if makes_pair(f2, depth + 1)]
+                return len(hn) == 1 and all(i == hn[0] or hn[0] in hdom.get(i, ()) for i, t, f2 in hcl)
+            news = [i for i, t, fn in cl if makes_pair(fn)]
             ok = len(news) == 1 and all(i == news[0] or news[0] in dom.get(i, ()) for i, t, fn in cl)
             rep.ob(rule_prefix + ".through-new", inst, ok, "calls: %s (every call is dominated by the single InOutBuf::new)" % names, loc_of(b))
             # the closures
